@@ -17,7 +17,7 @@ ALLOWED_AXIOMS = []
 TRUSTED_BASE = [
     "coqc 8.16.1 kernel (vm_compute used for refutation witnesses and facts about scraped constants; no native_compute)",
     "no axioms: every theorem of coq/C10/Properties.v is 'Closed under the global context'",
-    "translator checks/C10.py:gen (regex scrape of the GCFlags / AllocatorFlags bit numbers, the default pause, the '* 100' pause scale and the '#@usize' leaf threshold)",
+    "translator checks/C10.py:gen (regex scrape of the GCFlags / AllocatorFlags bit numbers, the default pause, the '* 100' pause scale, whether GC:register still forces LEAF for size < #@usize, whether GC_markptrs/GC_scanptr test item.size >= #@usize, and whether GC:reregister writes item.size before the branch that may run a cycle)",
     "extraction: Require Extraction + ExtrOcamlBasic only; Z/positive/nat stay Coq inductives; no Extract Constant of our own",
     "ocaml/zutil.ml + coq/C10/driver.ml (text <-> extracted Z; feeds the real run's addresses and conservatively retained blocks to the model as the history)",
     "harness/C10/gcdriver.nelua (mutator + allocator hook below the collector through the supported embedded_general_allocator override; none of the collector is re-implemented), gcc, the real Nelua compiler built from /repo/src",
@@ -35,8 +35,8 @@ HARNESS = os.path.join(vlib.VERIF, "harness", ID, "gcdriver.nelua")
 M64 = (1 << 64) - 1
 CAP = 1024
 
-KEY_LEAF = "history:N(4);R(64,inplace);N(32,fin);S(0.1<-1);D(1);C -> pointee freed while reachable [GC:reregister keeps the size<8 LEAF flag]"
-KEY_FINROOT = "history:N(32,fin);R(2000,moved) -> abort 'attempt to register a root pointer with finalizer' [GCFlags.FINALIZE == GCFlags.ROOT == 1<<17]"
+KEY_LEAF = "regression[9c3dee4]:history:N(4);R(64,inplace);N(32,fin);S(0.1<-1);D(1);C -> pointee freed while reachable [GC:reregister keeps the size<8 LEAF flag]"
+KEY_FINROOT = "regression[fe9bb7e]:history:N(32,fin);R(2000,moved) -> abort 'attempt to register a root pointer with finalizer' [GCFlags.FINALIZE == GCFlags.ROOT == 1<<17]"
 
 
 # ---------------------------------------------------------------------------- gen
@@ -133,7 +133,7 @@ def gen_history(rng, nops, first_id=0):
         return ref is not None and objs[ref[0]]["alive"] and objs[ref[0]]["epoch"] == ref[1]
 
     def nslots(o):
-        if o["leaf"] or o["tainted"] or o["size"] < 16:
+        if o["leaf"] or o["size"] < 16:
             return 0
         return o["size"] // 8 - 1
 
@@ -206,8 +206,6 @@ def gen_history(rng, nops, first_id=0):
             i = handles[h]
             o = objs[i]
             move = rng.random() < 0.4
-            if o["fk"] != 0:
-                move = False            # known defect: FINALIZE == ROOT, a moved finalizable block aborts
             choices = [s for s in SIZES if s != o["size"] and (move or s <= o["cap"])]
             if not choices:
                 continue
@@ -246,6 +244,51 @@ def gen_history(rng, nops, first_id=0):
             ops.append("D %d" % h)
         ops += ["C", "C"]
     return ops, mode
+
+
+def gen_burst_history(rng, first_id=0):
+    """Many dead blocks pile up while the collector is stopped; it is restarted with a pause that
+    makes the next growth due, and a live block is grown IN PLACE: the cycle runs inside
+    GC:reregister, sweeps the dead blocks and lets GC_rehash shrink the collector's own table.
+    Afterwards the only reference to a fresh block is stored in the grown tail."""
+    ops = []
+    nid = first_id
+    if rng.random() < 0.5:
+        ops.append("U 1")
+    ops.append("G 0")
+    live = rng.randrange(1, 5)
+    sizes = {}
+    for h in range(live):
+        sz = rng.choice([16, 32, 64, 128, 256])
+        ops.append("N %d %d %d 0 %d" % (nid, h, sz, rng.choice([0, 0, 1])))
+        sizes[h] = sz
+        nid += 1
+    for h in range(1, live):
+        ops.append("S %d 1 %d" % (h - 1, h))
+    if rng.random() < 0.5:
+        ops.append("C")
+    ndead = rng.choice([12, 40, 80, 150, 300])
+    for _ in range(ndead):
+        ops.append("N %d %d %d %d %d" % (nid, 10 + rng.randrange(2), rng.choice([8, 16, 32, 64]), rng.choice([0, 0, 0, 1]),
+                                       rng.choice([0, 0, 0, 1])))
+        nid += 1
+    ops += ["D 10", "D 11"]
+    ops.append("P %d" % rng.choice([0, 50, 100, 100, 120, 150, 200]))
+    ops.append("G 1")
+    t = rng.randrange(live)
+    ns = rng.choice([s for s in (128, 256, 512, 768, 1024) if s > sizes[t]])
+    ops.append("R %d %d 0" % (t, ns))
+    slot = rng.randrange(sizes[t] // 8, ns // 8)
+    ops.append("G 0")
+    ops.append("N %d 9 32 0 %d" % (nid, rng.choice([0, 1])))
+    nid += 1
+    ops += ["S %d %d 9" % (t, slot), "D 9", "C", "C", "L 8 %d %d" % (t, slot), "C"]
+    tail, _ = gen_history(rng, rng.choice([0, 20, 60]), first_id=nid)
+    # the random tail starts from its own bookkeeping: drop every handle first so that it never
+    # dereferences what it does not know about
+    if tail:
+        ops += ["D %d" % h for h in range(NH)] + [o for o in tail if not o.startswith(("U ", "G 0")) or o == "G 0"]
+    return ops
 
 
 # ---------------------------------------------------------------------------- real run
@@ -666,7 +709,7 @@ def run_histories(ctx, binary, model, hists, label):
 # ---------------------------------------------------------------------------- coroutine stream (runtime, sampled)
 COHARNESS = os.path.join(vlib.VERIF, "harness", ID, "gccodriver.nelua")
 NCO = 6
-KEY_CODESTROY = "coroutine-history:c 0;r 0 6 0;r 0 2 0;C;C;r 0 1 0 -> blocks held only by the suspended coroutine's frame are finalized and freed [coroutine.destroy unregisters the coroutine from the GC before minicoro.destroy refuses]"
+KEY_CODESTROY = "regression[1075c3a]:coroutine-history:c 0;r 0 6 0;r 0 2 0;C;C;r 0 1 0 -> blocks held only by the suspended coroutine's frame are finalized and freed [coroutine.destroy unregisters the coroutine from the GC before minicoro.destroy refuses]"
 WITNESS_CODESTROY = ["c 0", "r 0 6 0", "r 0 2 0", "C", "C", "r 0 1 0"]
 
 
@@ -687,13 +730,20 @@ def gen_coscript(rng, nops):
             held.add(k)
         elif r < 0.70:
             k = rng.choice(alive)
-            op = rng.choice([1, 2, 2, 2, 3, 3, 5, 4 if rng.random() < 0.3 else 1])
+            op = rng.choice([1, 2, 2, 2, 3, 3, 5, 6, 4 if rng.random() < 0.3 else 1])
             a = rng.randrange(NCO)
             if op == 5 and (a == k or a not in alive):
                 op = 1
             ops.append("r %d %d %d" % (k, op, a))
             if op == 4:
                 st[k] = "dead"
+        elif r < 0.76:
+            # a resume from the main program that fails (dead or never created coroutine) ...
+            dead = [k for k in held if st.get(k) == "dead"] + [k for k in range(NCO) if k not in st]
+            if dead and rng.random() < 0.7:
+                ops.append("f %d" % rng.choice(dead))
+            # ... and blocks referenced only from frames deep in the main stack while a cycle runs
+            ops.append("w %d" % rng.choice([0, 1, 3, 8, 20]))
         elif r < 0.88:
             ops.append("C")
         elif r < 0.94:
@@ -785,8 +835,9 @@ def check_coscript(ops, rc, out, err):
                 stats["observations"] += 1
                 k, i, ok = int(e[1]), int(e[2]), e[3]
                 if ok != "ok":
-                    P.append(("coroutine-frame-corrupt", "command %d '%s': coroutine %d found a block of its own frame released or overwritten" % (idx, op, k)))
-                elif k in frames and i not in frames[k]:
+                    who = "a frame deep in the MAIN stack" if k == 99 else "coroutine %d" % k
+                    P.append(("coroutine-frame-corrupt", "command %d '%s': %s found a block referenced only from its own locals released or overwritten" % (idx, op, who)))
+                elif k != 99 and k in frames and i not in frames[k]:
                     P.append(("coroutine-frame-mixup", "command %d '%s': coroutine %d sees block %d, its frame holds %s" % (idx, op, k, i, frames[k])))
         if P:
             break
@@ -828,7 +879,7 @@ def coroutine_stream(ctx, tag, extra):
                               "%s build, coroutine stream: %s" % (tag, P[0][1]),
                               detail={"script": ops, "problems": P[:5],
                                       "replay": "nelua -b harness/C10/gccodriver.nelua -o gcco && printf '%s\\n' | ./gcco" % "\\n".join(ops)})
-    # known defect: a refused coroutine.destroy unregisters the coroutine from the collector
+    # repaired in /repo (1075c3a): a refused coroutine.destroy must leave the coroutine registered; regression witness
     ops, (P, st) = one(WITNESS_CODESTROY)
     if P:
         ctx.violation(KEY_CODESTROY, "oracle", "%s build: %s" % (tag, P[0][1]),
@@ -894,6 +945,12 @@ def correspond(ctx):
         for o in ops:
             dist["ops"][o[0]] = dist["ops"].get(o[0], 0) + 1
         hists.append(("rand-%d" % k, ops))
+    for k in range(ctx.scale(30, 800)):
+        ops = gen_burst_history(rng)
+        dist["modes"]["burst-inplace-growth"] = dist["modes"].get("burst-inplace-growth", 0) + 1
+        for o in ops:
+            dist["ops"][o[0]] = dist["ops"].get(o[0], 0) + 1
+        hists.append(("burst-%d" % k, ops))
     total = {"collect_ops": 0, "objects": 0, "finalized": 0, "freed": 0, "extras": 0, "reach_checks": 0, "max_live": 0}
     evaluations = 0
     nontrivial = 0
@@ -935,10 +992,15 @@ def correspond(ctx):
                                   "%s build, history %s: model of gc.nelua no longer corresponds to the code: %s (the property oracle passed on this history)" % (tag, h.name, h.mismatch[0]),
                                   detail={"history": h.ops, "mismatch": h.mismatch[:5], "no_longer_checks": "correspondence stream C10/gc-history"},
                                   failing_input=False)
-        # ---- known defects of the unchanged tree: replay the witnesses
+        # ---- witnesses of defects repaired in /repo (fe9bb7e, 9c3dee4) and of the one still open: replayed every run
         wres = run_histories(ctx, binary, model, [("witness-leaf", WITNESS_LEAF), ("witness-finroot", WITNESS_FINROOT),
                                                    ("witness-finalloc", WITNESS_FINALLOC)], tag)
         hl, hf, ha = wres
+        for hw in (hl, hf):
+            if not hw.problems and hw.mismatch:
+                ctx.violation("model-mismatch:witness:%s" % hw.name, "correspondence",
+                              "%s build, %s: %s" % (tag, hw.name, hw.mismatch[0]),
+                              detail={"history": hw.ops, "mismatch": hw.mismatch[:5]}, failing_input=False)
         if ha.problems:
             ctx.violation(KEY_FINALLOC, "oracle", "%s build: %s" % (tag, ha.problems[0][1]),
                           detail={"history": WITNESS_FINALLOC, "problems": ha.problems[:3], "outside_the_coq_model": True,
